@@ -13,7 +13,8 @@ TECHNIQUE = ("explicit-state breadth-first search (depth 3, states = buffer cont
              "plain-array owning-tensor model; plus bounded-exhaustive enumeration of reshape targets, layout conversions and constructors")
 LEVEL_TEXT = ("History part: the state is the contents of one buffer (raw buffer at every alignof(T)-multiple misalignment 0..63 inside a canary-painted "
               "guard arena, or the storage of a source tensor); the alphabet is the fixed list of library statements in harness/c20.h (scalar, tensor and "
-              "expression compound assignment, element writes, dynamic/fixed/mask view writes, fill/iota/zeros/ones/eye, sum) applied through the alias "
+              "expression compound assignment, assignment and compound assignment from a second map over the same storage, element writes, dynamic/fixed/mask "
+              "view writes, fill/iota/zeros/ones/eye, sum) applied through the alias "
               "and through the source; ALL sequences of length <= 3 are executed with the real library (BFS with de-duplication of equal contents) and "
               "after every transition the buffer must equal the reference array bit for bit, every alias must read the same values and the canaries "
               "must be intact. Enumeration part: every case of the stated families is instantiated and compared exactly. Nothing is sampled.")
@@ -218,7 +219,7 @@ def cases(tier, cfg):
 
 def bounds(tier):
     return {
-        "quick": "history: BFS depth 3 over ~27 letters through the alias + ~20 through the source, types f64,f32,i32,i64; raw buffer 3x3x3 under TensorMap at every "
+        "quick": "history: BFS depth 3 over ~31 letters through the alias + ~21 through the source, types f64,f32,i32,i64; raw buffer 3x3x3 under TensorMap at every "
                  "misalignment 0..63 step alignof(T) (depth 3 everywhere), TensorMap(Tensor) 3x3, reshape 2x3x4->4x6, flatten 3x(W+1), squeeze "
                  "1x3x1x4. reshape: every target shape of ranks 1-4 (extents>=1) for sizes 1..24 from the prime-factor source shape (f64), sizes 12,24 (f32,i64), "
                  "12,16,18,20,24 (i32). layout + constructors: all shapes of ranks 1-4 with extents<=3 (f64,i32; f32,i64 ranks<=2) + W/W+1 shapes. nested "
